@@ -75,7 +75,8 @@ def moves_fields(keys, kinds=('moves', 'gen')):
         out = [f"n={hdr.get('n')} dup={hdr.get('dup')}"]
         for r in rows:
             if 'pp' in r:
-                r['pu'], r['ps'] = r['pp'][0], r['pp'][1]
+                pp = (r['pp'] + '??')[:2]
+                r['pu'], r['ps'] = pp[0], pp[1]
             out.append(':'.join(r.get(x, '') for x in keys))
         return ' '.join(out)
     return p
@@ -407,9 +408,12 @@ def check_C12(ctx):
     ok = V.prepare(ctx, thm('C12'))
     ctx.trusted = TB_COMMON + ['"safe promotion => win" (K+Q / K+R v K is won) is chess theory outside the model']
     ctx.assumptions = ['promotion to a queen/rook that cannot be captured and does not stalemate is taken as a win']
-    rows = [(strong, stm, psq) for strong in (0, 1) for stm in (0, 1) for psq in range(8, 56)]
+    rows = [(strong, stm, psq, 0) for strong in (0, 1) for stm in (0, 1) for psq in range(8, 56)]
+    # the same rows again with other endgame classes (KQK, KRK, KBNK, K+pawns v K, both colours) evaluated in between: the KPK answer
+    # must not depend on what the evaluator was asked before (quick: every fourth row)
+    rows += [(a, b, c, 1) for k, (a, b, c, _) in enumerate(list(rows)) if ctx.tier != 'quick' or k % 4 == ctx.seed % 4]
     chunks = [rows[i::NPROC] for i in range(NPROC)]
-    texts = [''.join(f'kpkrow {a} {b} {c}\n' for a, b, c in ch) for ch in chunks if ch]
+    texts = [''.join(f'kpkrow {a} {b} {c}{" 1" if h else ""}\n' for a, b, c, h in ch) for ch in chunks if ch]
 
     def work(text):
         rc, C, err = V.run_cpp(ctx.exe, text)
@@ -439,7 +443,7 @@ def check_C12(ctx):
     ctx.distinct.update(range(legal))
     ctx.cov['exhaustive'] = True
     ctx.cov['rule'] = ('EXHAUSTIVE: every legal KPK position, both pawn colours, both sides to move, all 8 files, classified through the real evaluation path (endgame::score on a Position '
-                       'built from a FEN) vs the model (normalize + index + bit of the re-extracted table) vs the rules-level retrograde solver; distinct = legal positions')
+                       'built from a FEN) vs the model (normalize + index + bit of the re-extracted table) vs the rules-level retrograde solver, and again with evaluations of other endgame classes in between (history independence); distinct = legal positions')
     ctx.count('legal_positions', legal)
     ctx.count('won_positions', wins)
     ctx.count('spec_mismatches', len(sbad))
@@ -863,8 +867,79 @@ def check_C19(ctx):
         texts.append('\n'.join(cur) + '\n')
     ctx.cov['rule'] = (f'{len(books)} byte strings as book files: every truncation point of a 3-record file, the empty file, random books with 0..40 records, '
                        'trailing partial records, weights from {0,1,2,5,100,65535,random}, castling-like and promotion move words; for each key 3 seeds with the '
-                       'residue replayed from std::mt19937; loaded map (via private access), get_random_move and get_best_move compared C++ / model / spec')
-    V.three_way(ctx, texts, line_proj(('book', 'bookpick', 'bookbest')), 'book file loading and selection')
+                       'residue replayed from std::mt19937 (model correspondence); loaded map (via private access), get_random_move and get_best_move compared C++ / model / spec; and, for any generator, the '
+                       'distribution of the random policy over hundreds of seeds per book through the public interface (only recorded positive-weight moves, frequencies within 6 sigma of the weights)')
+    feats = vbuild.harness_features()
+    if 'VH_BOOK_HASHMAP' in feats:
+        V.three_way(ctx, texts, line_proj(('book ', 'bookbest')), 'book file loading and best-move selection')
+        # the exact draw (residue replayed from std::mt19937) is a datum of the MODEL correspondence only: the property does not fix
+        # the generator, so a disagreement here without a property-level failure below is reported as a broken tie, not as a failing input
+        V.three_way(ctx, texts, line_proj(('bookpick',)), 'book random selection (exact draw)', spec_proj=lambda l, s: None)
+    else:
+        V.three_way(ctx, texts, line_proj(('bookbest',)), 'book best-move selection')
+        V.report_violation(ctx, 'book loading: the harness cannot read the loaded book of this tree (PolyglotBook::_hashmap is gone); loaded contents are not compared; no-failing-input-found',
+                           '# broken tie: correspondence of the loaded book contents (private member PolyglotBook::_hashmap not present)\n', False, ident='no _hashmap')
+    # property level, through the public interface only and for ANY generator: over many seeds the random policy draws only recorded moves of
+    # positive weight, and each about as often as its weight says
+    import math
+    dplan = []
+    for b in books:
+        raw = bytes.fromhex(b) if b != '-' else b''
+        ents = [(int.from_bytes(raw[i:i + 8], 'big'), int.from_bytes(raw[i + 10:i + 12], 'big')) for i in range(0, len(raw) - 15, 16)]
+        ks = sorted(set(k for k, _ in ents))
+        if ks and sum(w for k, w in ents if k == ks[0]) > 0:
+            dplan.append((b, ks[0]))
+    rng.shuffle(dplan)
+    dplan = dplan[:40 if ctx.tier == 'quick' else 1200]
+    nd = 400 if ctx.tier == 'quick' else 2000
+    dtexts, cur = [], []
+    for i, (b, key) in enumerate(dplan):
+        cur += [f'pos {fens[i % len(fens)]}', f'bookdist {b} {key:x} {nd} {rng.randrange(1 << 30)}']
+        if len(cur) >= 8:
+            dtexts.append('\n'.join(cur) + '\n'); cur = []
+    if cur:
+        dtexts.append('\n'.join(cur) + '\n')
+    from concurrent.futures import ThreadPoolExecutor
+
+    def dwork(t):
+        rc, C, err = V.run_cpp(ctx.exe, t)
+        rl, M, S, _ = V.run_lean(ctx.drv, t)
+        return t, C, M, S
+    nbad = 0
+    with ThreadPoolExecutor(max_workers=NPROC) as ex:
+        for t, C, M, S in ex.map(dwork, dtexts):
+            ops = t.splitlines()
+            for i, op in enumerate(ops):
+                if not op.startswith('bookdist') or i >= len(C) or i >= len(S):
+                    continue
+                ctx.cov['evaluations'] += 1
+                ctx.count('random_policy_distributions')
+                c, sp, mo = C[i], S[i], M[i]
+                why = None
+                if sp != mo:
+                    why = f'model and spec disagree on the support: {mo} / {sp}'
+                elif c.startswith('bookdist absent') or sp.startswith('bookdist absent'):
+                    if c != sp:
+                        why = f'key presence: cpp `{c}` spec `{sp}`'
+                else:
+                    sup = dict((int(x.split(':')[0]), int(x.split(':')[1])) for x in sp.split()[2:])
+                    got = dict((int(x.split(':')[0]), int(x.split(':')[1])) for x in c.split()[2:])
+                    tot = sum(sup.values())
+                    n = sum(got.values())
+                    for mv, k in got.items():
+                        if sup.get(mv, 0) == 0:
+                            why = f'the random policy drew move {mv} ({k} of {n} seeds), which is {"a weight-0 move" if mv in sup else "not recorded for this key"}'
+                            break
+                    if not why and tot > 0:
+                        for mv, w in sup.items():
+                            pr = w / tot
+                            dev = abs(got.get(mv, 0) - n * pr)
+                            if dev > 6 * math.sqrt(n * pr * (1 - pr)) + 4:
+                                why = f'move {mv} has weight {w} of {tot} but was drawn {got.get(mv, 0)} times in {n} seeds (expected about {n * pr:.0f})'
+                                break
+                if why and nbad < 2:
+                    nbad += 1
+                    V.report_violation(ctx, 'book random policy: ' + why, '\n'.join(ops[max(0, i - 1):i + 1]) + f'\n# cpp : {c}\n# spec: {sp}\n', True, ident='bookdist ' + why[:80])
     ctx.count('books', len(books))
     ctx.count('picks', len(plan))
     hunt_if_needed(ctx, ok, 'book', lambda: None)
@@ -1303,8 +1378,23 @@ def check_C08(ctx):
                 ops += [f'smgo {rng.randrange(1 << 30)} {d}', f'smgo {rng.randrange(1 << 30)} {rng.randrange(1, 4)}', f'go depth {rng.randrange(1, 4)}']
             texts.append('\n'.join(ops) + '\n')
     # ordinary and zugzwang-rich positions: no mate may be announced
-    for fen in search_positions(ctx, 30 if ctx.tier == 'quick' else 300, rng):
+    sp = search_positions(ctx, 30 if ctx.tier == 'quick' else 300, rng)
+    for fen in sp:
         texts.append(f'pos {fen}\ngo depth {rng.randrange(1, 4)}\ngo depth {rng.randrange(2, 5)}\nplaybest\ngo depth 3\n')
+    # searches cut off by a node budget in the middle of an iteration, then shallow searches that read what they left in the table:
+    # a half-searched node must not leave a bound behind that a later search turns into a mate announcement
+    tactical = ['6k1/pp6/1q3Pp1/2r5/8/1P6/P1PQ1PP1/6KR w - - 0 1', 'r1b2rk1/pp3ppp/2n1pn2/q7/2BP4/2N2N2/PP2QPPP/R4RK1 w - - 0 1',
+                '2r3k1/5ppp/8/8/8/2Q5/5PPP/3R2K1 w - - 0 1', '6k1/5ppp/8/8/8/8/1q3PPP/2R3K1 b - - 0 1']
+    cut = tactical + [mirror_fen(f) for f in tactical] + [fen for _, fen in mates[:10 if ctx.tier == 'quick' else 200]] + sp[:10 if ctx.tier == 'quick' else 100]
+    for fen in cut:
+        ops = [f'pos {fen}']
+        for _ in range(2):
+            ops += [f'go nodes {rng.choice([150, 400, 1000, 2500, 5000])}', f'go depth {rng.randrange(1, 3)}']
+        texts.append('\n'.join(ops) + '\n')
+    # an army against a bare king: the static evaluation is huge, but only a forced mate may be announced as one
+    for fen in ['8/4k3/2P5/8/8/6Q1/2P5/RNBQKBNR w - - 0 1', '8/8/8/7k/8/QQQ5/QQQ5/QQQ4K w - - 0 1', '7k/8/8/8/8/RRRR4/RRRR4/RR5K w - - 0 1']:
+        for f in (fen, mirror_fen(fen)):
+            texts.append(f'newgame\npos {f}\n' + ''.join(f'go depth {d}\n' for d in (1, 2)))
     for fen in ['8/8/8/8/5k2/7p/8/R3K3 w - - 0 1', '8/8/8/8/8/5k2/5p2/5K2 b - - 0 1', '8/8/p7/1p6/1P6/P7/8/k1K5 w - - 0 1', '8/8/8/3k4/8/3K4/3P4/8 w - - 0 1',
                 '8/k7/3p4/p2P1p2/P2P1P2/8/8/K7 w - - 0 1', '7k/8/5N1K/6N1/8/8/8/8 w - - 0 1']:
         texts.append(f'newgame\npos {fen}\n' + ''.join(f'go depth {d}\n' for d in (1, 2, 3, 4, 5)))
@@ -1315,7 +1405,7 @@ def check_C08(ctx):
         texts.append(f'newgame\npos {fen}\n' + ''.join(f'go depth {d}\n' for d in (1, 2, 3, 4)) + 'playbest\ngo depth 3\n')
     runs = go_run(ctx, texts)
     ctx.cov['rule'] = (f'{len(mates)} positions with a forced mate in 1 or 2 found by the SPEC solver (some with half-move clock 97-99), searched at depths 1..4 and then followed along the engine\'s own '
-                       'moves with a warm table (playbest), unrestricted searches right after searchmoves-restricted searches of the same mate-in-one position, plus corpus and pawn-endgame positions at depths 1..5; every final "score mate y" is checked by the exhaustive solver (|y| <= 3), mate-in-one '
+                       'moves with a warm table (playbest), unrestricted searches right after searchmoves-restricted searches of the same mate-in-one position, node-budget searches cut off mid-iteration followed by shallow searches on tactical and mate positions, armies against a bare king, plus corpus and pawn-endgame positions at depths 1..5; every final "score mate y" is checked by the exhaustive solver (|y| <= 3), mate-in-one '
                        'must be played, and no node may return a value beyond VALUE_MATE (acceptor field worst)')
     judge(ctx, runs, 'mate announcements', c08_fail)
     ctx.count('mate_announcements_verified', sum(1 for r in runs if r['spec'].get('mate', '').startswith('ok')))
